@@ -116,6 +116,11 @@ pub fn execute<H: Helper>(
             // retrieve (yank) last item killed
             if let Some(text) = kill_ring.yank() {
                 s.edit_yank(input_state, text, anchor, n)?;
+                if !input_state.is_emacs_mode() {
+                    // the cursor is moved back onto the last character put:
+                    // the text before it is no longer what a yank-pop would replace
+                    kill_ring.reset();
+                }
             }
         }
         Cmd::ViYankTo(ref mvt) => {
